@@ -67,6 +67,8 @@ struct Prepared {
 }
 
 fn main() {
+    // a stack overflow / abort in the code under test must become a verdict, not a dead check
+    vcore::supervise("C05");
     let ctx = Ctx::from_args("C05", "exploration");
     let thorough = !ctx.quick();
 
